@@ -421,3 +421,16 @@ Definition C08_check_n (tb : ctable) (validate : bool) sg h args kw (o : obs nat
 Definition obs_eqb_n : obs nat -> obs nat -> bool := obs_eqb nat Nat.eqb.
 (* which branches of parse_loop a case exercises: [positional converted; positional unchanged(failed); positional None;
    keyword converted; keyword unchanged; keyword None; keyword absent; un-annotated] - counted by the harness *)
+
+(* kicker._prepare_message evaluated by the correspondence run: a model / dataclass instance is represented by the
+   number of its dict form (model_dump and asdict are then the identity on numbers) *)
+Definition prepare_message_n (args : list (pyarg nat nat nat)) (kw : list (nat * pyarg nat nat nat))
+  : option (list nat * list (nat * nat)) :=
+  prepare_message nat nat nat (fun m => m) (fun d => d) args kw.
+Definition prep_eqb (a b : option (list nat * list (nat * nat))) : bool :=
+  match a, b with
+  | None, None => true
+  | Some (a1, k1), Some (a2, k2) =>
+    list_eqb Nat.eqb a1 a2 && list_eqb (fun x y => (fst x =? fst y) && (snd x =? snd y)) k1 k2
+  | _, _ => false
+  end.
